@@ -101,7 +101,7 @@ pub fn check(rep: &mut Rep, d: Duration, s: Duration) {
     let f1_applies = dp.0 < -1 || sp.0 < -1 || canon(w.fl).0 < -1;
     let (f1f, f1c, f1r) = if f1_applies { model_f1(dp, sp) } else { (0, 0, 0) };
     let det = |op: &str| format!("{}.{op}({})", fmt_parts(dp), fmt_parts(sp));
-    let mut one = |rep: &mut Rep, op: &str, got: Result<Duration, PanicInfo>, ok: &[i128], f1v: i128| match got {
+    let one = |rep: &mut Rep, op: &str, got: Result<Duration, PanicInfo>, ok: &[i128], f1v: i128| match got {
         Err(e) => rep.fail(&format!("{op}/panic/{}", e.class()), None, || format!("{} panicked: {} at {}", det(op), e.msg, e.loc)),
         Ok(g) => {
             let gp = g.to_parts();
@@ -132,7 +132,7 @@ pub fn check_epoch(rep: &mut Rep, e: Epoch, s: Duration) {
     let (f1f, f1c, f1r) = if f1_applies { model_f1(dp, sp) } else { (0, 0, 0) };
     rep.sample("epoch", || format!("Epoch({}, {:?}).floor({})", fmt_parts(dp), e.time_scale, fmt_parts(sp)));
     let det = |op: &str| format!("Epoch({}, {:?}).{op}({})", fmt_parts(dp), e.time_scale, fmt_parts(sp));
-    let mut one = |rep: &mut Rep, op: &str, got: Result<Epoch, PanicInfo>, ok: &[i128], f1v: i128| match got {
+    let one = |rep: &mut Rep, op: &str, got: Result<Epoch, PanicInfo>, ok: &[i128], f1v: i128| match got {
         Err(p) => rep.fail(&format!("epoch-{op}/panic/{}", p.class()), None, || format!("{} panicked: {}", det(op), p.msg)),
         Ok(g) => {
             let gp = g.duration.to_parts();
